@@ -54,7 +54,9 @@ def make_oracle(tier, with_defs=False):
         sin = spans.spans(text)
         viol, tags = [], []
         seen = set()
-        for (c, sq, el) in opts:
+        # quick tier: token pairs run under "everything off" and "everything on" only; single tokens under all four settings
+        use = opts[:2] if (tier == "quick" and len(case[1]) > 1) else opts
+        for (c, sq, el) in use:
             out = reformat_text(text, width=width, semantic=sem, cleanups=c, smartquotes=sq, ellipses=el)
             if out != text:
                 tags.append("output-differs")
